@@ -117,7 +117,7 @@ def _observables(backend, shots=0):
     import emu_sv as sv
 
     mod = sv if backend == "sv" else m
-    obs = [mod.Occupation(evaluation_times=[0.5, 1.0]), mod.CorrelationMatrix(evaluation_times=[1.0])]
+    obs = [mod.Occupation(evaluation_times=[0.5, 1.0]), mod.CorrelationMatrix(evaluation_times=[1.0]), mod.Energy(evaluation_times=[0.5, 1.0]), mod.EnergySecondMoment(evaluation_times=[1.0])]
     if shots:
         obs.append(mod.BitStrings(evaluation_times=[1.0], num_shots=shots))
     return obs
@@ -151,6 +151,7 @@ def _reference(case, dt=10):
     occ = {0.5: np.zeros(n), 1.0: np.zeros(n)}
     corr = np.zeros((n, n))
     born = {"0" * n: 1.0}
+    energy = {0.5: 0.0, 1.0: 0.0, "m2": 0.0, "scale": 1.0}
     if keep:
         spec = _spec(case["shape"], case["kind"], keep)
         Ls = None
@@ -170,6 +171,10 @@ def _reference(case, dt=10):
         for t in (0.5, 1.0):
             o = ref.observables(t)
             occ[t][keep] = o["occupation"]
+        for t in (0.5, 1.0):
+            energy[t] = float(ref.observables(t)["energy"])
+        energy["m2"] = float(ref.observables(1.0)["energy_second_moment"])
+        energy["scale"] = max(1.0, ref.max_norm_H())
         c = ref.observables(1.0)["correlation_matrix"]
         for a, i in enumerate(keep):
             for b, j in enumerate(keep):
@@ -181,7 +186,7 @@ def _reference(case, dt=10):
             for a, i in enumerate(keep):
                 full[i] = bs[a]
             born["".join(full)] = born.get("".join(full), 0.0) + pr
-    return occ, corr, born
+    return occ, corr, born, energy
 
 
 def run_case(case):
@@ -200,7 +205,7 @@ def run_case(case):
     ids = [f"q{i}" for i in range(n)]
     if list(res.atom_order) != ids:
         return result(False, sig="atom_order", msg=f"{label}: atom_order {res.atom_order}", outcome="order")
-    occ, corr, born = _reference(case)
+    occ, corr, born, energy = _reference(case)
     tol = 1e-6 if (case["backend"] == "sv" or good <= 2) else (1e-3 if case["kind"] == "slm" and good >= 4 else 5e-5)  # TDVP splitting classes as in C02
     for t in (0.5, 1.0):
         got = runner.to_np(runner.get_at(res, "occupation", t)).astype(float)
@@ -212,6 +217,15 @@ def run_case(case):
     gc = runner.to_np(runner.get_at(res, "correlation_matrix", 1.0)).astype(float)
     if gc.shape != (n, n) or np.abs(gc - corr).max() > tol:
         return result(False, sig=f"correlation|{case['backend']}", msg=f"{label}: correlation matrix {np.round(gc, 6).tolist()} but the reduced register gives {np.round(corr, 6).tolist()}", outcome="corr")
+    if case["other"] == "none":
+        # energies: dark atoms contribute nothing (no drive, no interaction, ground state)
+        for t in (0.5, 1.0):
+            e = float(np.real(runner.to_np(runner.get_at(res, "energy", t))))
+            if abs(e - energy[t]) > tol * 10 * energy["scale"]:
+                return result(False, sig=f"energy|{case['backend']}|{case['kind']}", msg=f"{label}: energy at t={t} is {e:.6f} but the reduced register gives {energy[t]:.6f}", outcome="energy")
+        e2 = float(np.real(runner.to_np(runner.get_at(res, "energy_second_moment", 1.0))))
+        if abs(e2 - energy["m2"]) > tol * 10 * energy["scale"] ** 2:
+            return result(False, sig=f"energy_second_moment|{case['backend']}|{case['kind']}", msg=f"{label}: <H^2> at t=1 is {e2:.6f} but the reduced register gives {energy['m2']:.6f}", outcome="energy2")
     if n <= 3 and case["other"] == "none":
         def run():
             r = _run(case, shots=1, dt=50)
@@ -222,7 +236,7 @@ def run_case(case):
         except Exception as e:
             return result(False, sig=f"raises|bitstrings|{sig_ctx}|{type(e).__name__}", msg=f"{label}: sampling raised {type(e).__name__}: {str(e)[:300]}", outcome="raise")
         transitions += paths
-        _, _, born50 = _reference(case, dt=50)
+        _, _, born50, _ = _reference(case, dt=50)
         dd = explore.dist_distance(dist, born50)
         if dd > max(tol, 1e-6):
             return result(False, sig=f"bitstrings|{case['backend']}", msg=f"{label}: exact bitstring distribution {rnd(dist, 5)} but the reduced register gives {rnd(born50, 5)}", outcome="bits")
